@@ -36,7 +36,8 @@ CONFIG = {
              "FASTA [any wrap] document generated here; concatenate; export_character_indices; copy constructor / "
              "deepcopy / namespace-scoped copy / clone) x a chain of 1-3 write/read hops over NEXUS {simple, "
              "preserve_spaces}, NeXML {cells, seqs}, PHYLIP {strict, relaxed, underscore pair, multispace} x {sequential, "
-             "interleaved reader}, FASTA {wrap, no wrap}; ragged rows only for FASTA/NeXML.  Data sets: 1-3 namespaces "
+             "interleaved reader}, FASTA {wrap, no wrap}, each through as_string/get(data=) or write(file=)/get(file=); "
+             "ragged rows only for FASTA/NeXML.  Data sets: 1-3 namespaces "
              "each with a tree list and/or a matrix, NEXUS with suppress_block_titles in {None, False} and NeXML.  "
              "Exhaustive: every symbol of every type as 1x1 and 2x1 matrix through every supported format variant.  "
              "Non-trivial = matrix with >= 1 non-fundamental symbol (continuous: >= 1 non-integral value), or a "
@@ -56,6 +57,10 @@ CONFIG = {
         "rows of unequal length are generated only for FASTA and NeXML (the other formats declare one NCHAR)",
         "continuous values are finite; equality is == on numbers (an int cell reads back as the equal float)",
         "tree and namespace-title labels in the data-set sub-check are simple (tree label quoting is C02's subject)",
+        "every library call runs under lib/budget.py (3e6 library events): a call that does not terminate fails its "
+        "clause instead of hanging the shard",
+        "needs the NeXML attribute-quoting fix made for C02 (commit 363ecd66, cherry-picked into the C09 worktree): "
+        "labels with \" & < \\ are generated for NeXML too",
     ],
 }
 
@@ -941,7 +946,7 @@ def run(ctx):
     self_check()
     quick = ctx.tier == "quick"
     runner.run_items(ctx, "symbols", symbol_items(), check_symbol)
-    total_m = 4000 if quick else 48000
-    total_d = 1200 if quick else 12000
+    total_m = 4800 if quick else 80000
+    total_d = 1200 if quick else 16000
     runner.run_given(ctx, "matrix", matrix_cases(ctx.tier), check_matrix, total_m // ctx.nshards)
     runner.run_given(ctx, "datasets", dataset_cases(), check_dataset, total_d // ctx.nshards)
